@@ -41,7 +41,7 @@ def tsan_reports(se):
                     continue
             for m in re.finditer(r"#\d+ (\S[^\n]*?) (/\S+:\d+)", stack):
                 fn, where = m.group(1), m.group(2)
-                if "occa::" in fn and "/harness/" not in where:
+                if fn.startswith("occa::") and "/harness/" not in where:
                     f = re.sub(r"\(.*", "", fn)
                     if f not in fns:
                         fns.append(f)
